@@ -80,7 +80,7 @@ def run(rep, tier, seed, proof_broken=False):
                     continue
                 name = "g%d_%d" % (bi, ei)
                 dst = os.path.join(lab.root, name)
-                spec = base.spec
+                spec = base.spec if kind != "decl-other-version" else ("1.0" if base.spec == "1.1" else "1.1")
                 invgen.materialise(dst, inv, base.pool, spec, raw=raw)
                 v, codes = verdict(lab, name)
                 o = oracle(dst)
